@@ -3,6 +3,7 @@ C08 — users read only files their permission rules allow.
 -/
 import DtailModel.Model.Perm
 import DtailModel.Lemmas.GenPerm
+set_option autoImplicit false
 namespace Dtail.C08
 open Dtail
 
